@@ -18,7 +18,9 @@ Require Import OV.Base.Bytes OV.Base.Py OV.Base.C06_WrapShape OV.Base.Insp_Struc
 Require Import OV.Gen.Insp_Consts OV.Gen.C06_Wrapper OV.Model.Insp_Engine OV.Model.Insp_All OV.Model.Insp_Vhdx OV.Model.Insp_Vmdk.
 Require Import OV.Model.Wrap OV.Model.C03.
 Require Import OV.Proofs.Insp_Engine OV.Proofs.Insp_All OV.Proofs.Wrap OV.Proofs.C06.
-Require Import OV.Proofs.C03_Engine OV.Proofs.C03_Total OV.Proofs.C03_Sig OV.Proofs.C03_Wrap OV.Proofs.C03_Stable OV.Proofs.C03_Props OV.Proofs.C03_Examples.
+Require Import OV.Proofs.C03_Engine OV.Proofs.C03_Total OV.Proofs.C03_Sig OV.Proofs.C03_Wrap OV.Proofs.C03_Stable OV.Proofs.C03_Props.
+Require Import OV.Model.C01_Vhdx OV.Model.C01_Vmdk OV.Proofs.C01_Vhdx_Witness OV.Proofs.C01_Vmdk_Witness.
+Require Import OV.Proofs.C03_All OV.Proofs.C03_Reach OV.Proofs.C03_Abort OV.Proofs.C03_Examples.
 Open Scope N_scope.
 
 (* ================================================================== queries_total *)
@@ -119,7 +121,10 @@ Example C03_sig_gpt : forall b, sigb F_gpt b =
 Proof. exact sig_reading_gpt. Qed.
 Example C03_sig_luks : forall b, sigb F_luks b = beq (btake 6 b) [76;85;75;83;186;190].
 Proof. exact sig_reading_luks. Qed.
-Example C03_sig_vmdk : forall b, sigb F_vmdk b = prefixb [75;68;77;86] b || ((64 <=? blen b) && forallb ascii_text (btake 64 b)).
+Example C03_sig_vmdk : forall b, sigb F_vmdk b =
+  prefixb [75;68;77;86] b ||
+  ((64 <=? blen b) && forallb ascii_text (btake 64 b) &&
+   occursb [99;114;101;97;116;101;116;121;112;101;61;34] (OV.Base.Str.lower_ascii (OV.Model.C01_Vmdk.upto_nul b))).
 Proof. exact sig_reading_vmdk. Qed.
 
 (* ================================================================== C03_unique *)
@@ -235,6 +240,19 @@ Theorem C03_reads_through : forall allowed cs, exists w, read_so_far None allowe
 Proof. exact no_expectation_reads_through. Qed.
 Print Assumptions C03_reads_through.
 
+(* read_so_far does NOT exclude inspectors that raise: an exception of a non-expected inspector never reaches the
+   reader (C06); the wrapper freezes that inspector (errored set) in the state eat_chunk left behind.  The slots
+   after the reads cs are exactly: the inspector fed up to its first exception, and the errored flag *)
+Theorem C03_frozen_slots : forall expected allowed cs w,
+  read_so_far expected allowed cs w ->
+  w_slots w = map (slot_after cs) (allowed_fmts allowed) /\ w_finished w = false /\ w_expected w = expected.
+Proof. exact read_so_far_slots. Qed.
+Print Assumptions C03_frozen_slots.
+Example C03_ex_frozen :
+  exists w, read_and_closed None [] ex_frozen w /\ cw_format_name w = Ok (Some (fmt_name F_vmdk)) /\
+            s_err (slot_closed ex_frozen F_vmdk) = true /\ In (slot_closed ex_frozen F_vmdk) (w_slots w).
+Proof. exact ex_frozen_run. Qed.
+
 (* file-like sources: for every file content and every sequence of read sizes, the reads (none raising) are a
    read-through of the chunk list delivered, whose concatenation is the part of the file that was read *)
 Theorem C03_file_reads : forall expected allowed data sizes w' s' tr delivered,
@@ -247,6 +265,78 @@ Print Assumptions C03_file_reads.
 Theorem C03_factory_is_all_formats : map fst factory = map fst C06_Wrapper.all_formats.
 Proof. exact factory_names. Qed.
 Print Assumptions C03_factory_is_all_formats.
+
+(* ================================================================== all ten formats: match IS signature; runs with exceptions; the abort *)
+(* in_zone f b: b lies in a known-finding zone of f (vhdx: F2 or F4; vmdk: F1 or F3; the eight static formats: never).
+   Outside the zones format_match of the closed inspector IS the signature predicate for ALL ten formats: for vhdx
+   and vmdk this adds the converse (signature present => the inspector matches, whatever the read sizes, also when it
+   raised on the way and was frozen by the wrapper) — from C01_vhdx_refines_spec / C01_vmdk_refines_spec *)
+Theorem C03_match_is_signature_all : forall f cs, in_zone f (concat cs) = false -> cmatch (fst (run f cs)) = sigb f (concat cs).
+Proof. exact match_is_signature_all. Qed.
+Print Assumptions C03_match_is_signature_all.
+
+(* hence, after read-through and close, outside the zones of the allowed formats, format is read off the signature
+   table of the content (completeness no longer counts once _finished is set) *)
+Theorem C03_closed_format_by_signatures : forall expected allowed cs w,
+  read_and_closed expected allowed cs w -> outside_zones allowed (concat cs) ->
+  cw_format_name w = show_name (name_format (fun _ => true) (fun f => sigb f (concat cs)) true (allowed_fmts allowed)).
+Proof. exact closed_format_by_signatures. Qed.
+Print Assumptions C03_closed_format_by_signatures.
+
+(* reachable inspector states (any chunks, frozen after an exception, after finish): format_match implies the
+   signature of the stream that inspector has seen — all ten inspectors, no zone hypothesis *)
+Theorem C03_reach_match_signature : forall st i, ireach st i -> cmatch i = true -> sigb (name_of i) st = true.
+Proof. exact reach_match_signature. Qed.
+Print Assumptions C03_reach_match_signature.
+
+(* the signature predicates survive extension of the stream *)
+Theorem C03_signature_monotone : forall f st t, sigb f st = true -> sigb f (st ++ t) = true.
+Proof. exact sigb_app. Qed.
+Print Assumptions C03_signature_monotone.
+
+(* EVERY run of a reader that stops at the first exception — inspectors of non-expected formats raising and being
+   frozen, the inspector of the expected format aborting the stream (stop = Some ...), or nothing of the kind: a
+   specific format reported right after the last call or after close() has its signature in the bytes taken from the
+   source (taken_chunks: the chunks of the calls made, the one lost in the failing call included) *)
+Theorem C03_stopped_format_signature : forall expected allowed cs w1 tr delivered stop unused,
+  cw_run_stop (cw_new expected allowed) (map InChunk cs) = (w1, tr, delivered, stop, unused) ->
+  forall w m f, (w = w1 \/ w = cw_close w1) -> cw_format w = Ok (Some m) -> s_name m = fmt_name f -> f <> F_raw ->
+  sigb f (concat (taken_chunks cs unused)) = true.
+Proof. exact stopped_format_signature. Qed.
+Print Assumptions C03_stopped_format_signature.
+
+(* the expected-format abort is FINAL: when f's inspector is complete without matching after chunk j (the wrapper
+   raises ImageFormatError there), every continuation leaves it as it is, it does not match after close either, and
+   outside f's zones no extension of the content carries f's signature *)
+Theorem C03_expected_mismatch_is_final : forall f cs j more,
+  first_abort istate eat complete cmatch (init f) cs = Some (j, AbMismatch) ->
+  let seen := firstn (S j) cs in
+  complete (fst (eat_list (init f) seen)) = true /\ cmatch (fst (eat_list (init f) seen)) = false /\
+  (exists p, fst (eat_list (init f) (seen ++ more)) = ipos (fst (eat_list (init f) seen)) p) /\
+  cmatch (fst (run f (seen ++ more))) = false /\
+  (in_zone f (concat (seen ++ more)) = false -> sigb f (concat (seen ++ more)) = false).
+Proof. exact mismatch_abort_final. Qed.
+Print Assumptions C03_expected_mismatch_is_final.
+
+(* the reader's side of the abort: the stream is cut at chunk j with ImageFormatError, chunks 0..j taken; whatever
+   format reports then or after close() has its signature in those bytes and (outside f's zones) is never f *)
+Theorem C03_expected_mismatch_abort : forall f allowed cs j,
+  allowed_key allowed (fmt_name f) = true ->
+  first_abort istate eat complete cmatch (init f) cs = Some (j, AbMismatch) ->
+  exists w1 tr,
+    cw_run_stop (cw_new (Some (fmt_name f)) allowed) (map InChunk cs) =
+      (w1, tr, firstn j cs, Some (ImageFormatError, Some (nth j cs [])), map InChunk (skipn (S j) cs)) /\
+    forall w m g, (w = w1 \/ w = cw_close w1) -> cw_format w = Ok (Some m) -> s_name m = fmt_name g -> g <> F_raw ->
+      sigb g (concat (firstn (S j) cs)) = true /\ (in_zone f (concat (firstn (S j) cs)) = false -> g <> f).
+Proof. exact expected_mismatch_abort. Qed.
+Print Assumptions C03_expected_mismatch_abort.
+
+Example C03_ex_vhdx_outside_zones : in_zone F_vhdx wf_image = false.
+Proof. exact ex_vhdx_outside. Qed.
+Example C03_ex_vmdk_outside_zones : in_zone F_vmdk w_sparse = false.
+Proof. exact ex_vmdk_outside. Qed.
+Example C03_ex_abort : first_abort istate eat complete cmatch (init F_qcow2) [zeros 512; zeros 10] = Some (0%nat, AbMismatch).
+Proof. exact ex_abort. Qed.
 
 (* ================================================================== instances (non-vacuity) *)
 Example C03_ex_detected : exists w, read_and_closed None [] ex_vhd w /\ cw_format_name w = Ok (Some (fmt_name F_vhd)).
